@@ -8,3 +8,7 @@ package stringutil
 //@ func CreateAbsoluteURL(url, base)
 //@   fresh_assigns net/url.URL.*
 //@   ensures [C06] #case-table result == absSpec(url, base)
+
+// C01: a word counter is always selected (callers dereference it through the interface).
+//@ func SelectWordCounter(text)
+//@   ensures result != nil
